@@ -48,12 +48,17 @@ class Event:
 
 class SubCtx(ReqCtx):
     __slots__ = ("worlds", "sub_calls", "sub_kwargs", "source", "make_source",
-                 "sub_async", "events_seen", "next_calls", "sub_root")
+                 "sub_async", "events_seen", "next_calls", "sub_root",
+                 "event_values")
 
     def select_event(self, event):
-        self.world = self.worlds[event.k]
-        self.faults = self.world.faults
-        self.events_seen.append(event.k)
+        # events of one subscription are processed one at a time, in order;
+        # the event value itself may be anything (including None)
+        k = len(self.events_seen)
+        if k < len(self.worlds):
+            self.world = self.worlds[k]
+            self.faults = self.world.faults
+        self.events_seen.append(event.k if isinstance(event, Event) else k)
 
 
 class PullSource:
@@ -72,9 +77,9 @@ class PullSource:
         if self.i >= len(self.delays):
             raise StopAsyncIteration()
         await ctx.loop.sleep(self.delays[self.i])
-        ev = Event(self.sub, self.i)
+        ev = ctx.event_values[self.i]
+        ctx.log("src_emit", None, (self.sub, self.i))
         self.i += 1
-        ctx.log("src_emit", None, (self.sub, ev.k))
         return ev
 
 
@@ -93,7 +98,7 @@ class QueueSource:
         for k, d in enumerate(delays):
             await self.ctx.loop.sleep(d)
             self.ctx.log("src_emit", None, (self.sub, k))
-            self.q.put_nowait(Event(self.sub, k))
+            self.q.put_nowait((self.ctx.event_values[k],))
         self.q.put_nowait(self._END)
 
     def __aiter__(self):
@@ -106,7 +111,7 @@ class QueueSource:
         if item is self._END:
             self.q.put_nowait(self._END)
             raise StopAsyncIteration()
-        return item
+        return item[0]
 
 
 def agen_source(ctx, sub, delays):
@@ -115,7 +120,7 @@ def agen_source(ctx, sub, delays):
             ctx.next_calls += 1
             await ctx.loop.sleep(d)
             ctx.log("src_emit", None, (sub, k))
-            yield Event(sub, k)
+            yield ctx.event_values[k]
         ctx.next_calls += 1
 
     return gen()
@@ -143,7 +148,7 @@ def _subscription_resolver(root, ctx, info, **kwargs):
 class SubPlan:
     __slots__ = ("idx", "op", "text", "n", "delays", "pauses", "source_kind",
                  "sub_async", "faults", "wseeds", "exps", "scenario",
-                 "initial_value", "async_for")
+                 "initial_value", "async_for", "event_values")
 
 
 REFUSALS = ("two-fields", "two-aliases", "two-via-fragment",
@@ -247,12 +252,16 @@ def _plan(draws, spec, idx, scenario):
     if rs.chance(1, 2, "sub_async"):
         plan.sub_async = DELAYS[rs.below(len(DELAYS), "sub_lat")]
     plan.wseeds = [rs.below(1 << 30, "wseed") for _ in range(plan.n)]
+    # an event may be any value the application likes, None included
+    plan.event_values = [
+        None if rs.chance(1, 8, "none_event") else Event(idx, k)
+        for k in range(plan.n)]
     plan.faults = [dict() for _ in range(plan.n)]
     plan.exps = []
     if scenario == "ok":
         fs = draws.stream("subfaults%d" % idx)
         for k in range(plan.n):
-            ev = Event(idx, k)
+            ev = plan.event_values[k]
             base = expected_response(spec, op, World(spec, plan.wseeds[k]),
                                      root_value=ev)
             nf = fs.weighted((3, 3, 2), "n_faults")
@@ -344,6 +353,7 @@ def run_case(draws, prop, tier="quick"):
         ctx.sub_calls = 0
         ctx.sub_kwargs = None
         ctx.sub_root = "unset"
+        ctx.event_values = plan.event_values
         ctx.sub_async = plan.sub_async
         ctx.events_seen = []
         ctx.next_calls = 0
@@ -545,6 +555,31 @@ def run_case(draws, prop, tier="quick"):
             for v in oracles.check_wellformed("execution", "asyncio", r,
                                               plan.text, exp):
                 res.violations.append(v)
+        # ---- C16 over the events of one subscription: the executor is
+        # reused for every event, field hooks must still pair up per event
+        want_hooks = {}
+        for e in plan.exps:
+            for pth in e.resolved:
+                want_hooks[pth] = want_hooks.get(pth, 0) + 1
+        got_start, got_end = {}, {}
+        for _g, _vt, _actor, kind, pth, payload in kernel.log.events:
+            if kind in ("field_start", "field_end") and \
+                    payload == ("R0", plan.idx):
+                d = got_start if kind == "field_start" else got_end
+                d[pth] = d.get(pth, 0) + 1
+        for edge, got_h in (("start", got_start), ("end", got_end)):
+            bad = [pth for pth in set(want_hooks) | set(got_h)
+                   if want_hooks.get(pth, 0) != got_h.get(pth, 0)]
+            if bad:
+                pth = sorted(bad, key=repr)[0]
+                V.append(Violation(
+                    ("C16",), "field_hooks",
+                    ("subscription", edge, "count"),
+                    "subscription %d, %d events: field_%s fired %d times for "
+                    "path %r, the field is resolved in %d events" % (
+                        plan.idx, plan.n, edge, got_h.get(pth, 0), pth,
+                        want_hooks.get(pth, 0))))
+                break
         res.count("events", plan.n)
         res.count("source:" + plan.source_kind)
         if plan.n == 0:
